@@ -124,7 +124,7 @@ class Check:
         listed, unlisted, stale = self.classify()
         out = []
         code = 0
-        evidence_dir = evidence_dir or os.path.join(VERIF, "evidence")
+        evidence_dir = evidence_dir or os.environ.get("VERIF_EVIDENCE_DIR") or os.path.join(VERIF, "evidence")
         os.makedirs(os.path.join(evidence_dir, "replay"), exist_ok=True)
         for rule, reason in self.errors:
             out.append("ANALYSIS-ERROR property=%s rule=%s reason=%s" % (self.prop, rule, reason))
